@@ -671,7 +671,7 @@ LUA_FIXED = [
     ("millis-only-exit", "local st = runtime.callcontext({kill={millis=100000}}, function()\n  t = setmetatable({}, gcmt('t'))\n  u = mkud('u')\nend).status\nlog(st)\n", "",
      ["gc:t", "rel:u", "l:done", "close"]),
     # Runtime.Close with a killed context on the runtime itself (what the CLI's -cpulimit does): finalisers skipped, releases made
-    ("root-killed-close", "x = setmetatable({}, {__gc = function() log('gc:x ' .. runtime.context().status) for i = 1, 100000 do end end})\n"
+    ("root-killed-close", "x = setmetatable({}, {__gc = function() log('gc:x:' .. runtime.context().status) for i = 1, 100000 do end end})\n"
      "u = mkud('u', gcmt('gu'))\nwhile true do end\n", "rootcpu=100000",
      ["terminated", "root:killed", "close", "rel:u"]),
     ("root-live-close", "x = setmetatable({}, gcmt('x'))\nu = mkud('u', gcmt('gu'))\nlog('fine')\n", "rootcpu=100000",
